@@ -557,6 +557,103 @@ def importer_kinds_shard(args):
     return agg
 
 
+def long_and_multisite_shard(args):
+    """(a) files whose size sits around a power of two (4 KiB .. 128 KiB) with a multi-byte character (or a truncated sequence)
+    straddling the boundary: importstr = lossy text, importbin = exact bytes, import = the value; (b) one file importing the
+    same missing path at several sites of which only the k-th is evaluated: the error is reported at that site."""
+    seed, = args
+    rng = random.Random(seed)
+    agg = Agg()
+    os.makedirs(common.SCRATCH, exist_ok=True)
+    tmp = tempfile.mkdtemp(dir=common.SCRATCH)
+    try:
+        n = 0
+        for base in (4096, 8192, 16384, 32768, 65536, 131072):
+            for off in (-4, -3, -2, -1, 0, 1):
+                seq = rng.choice(["\u00e9".encode(), "\u20ac".encode(), "\U0001f642".encode(), b"\xf0\x9f\x98", b"\xe2\x82", b"\xc3",
+                                  "\U0001f642\U0001f642".encode()])
+                k = base + off
+                data = b"a" * k + seq + b"tail\n"
+                n += 1
+                name = "long%d.txt" % n
+                with open(os.path.join(tmp, name), "wb") as f:
+                    f.write(data)
+                text = oracles.lossy_utf8(data)
+                lo = max(0, k - 2)
+                prog = ("local s = importstr %s, b = importbin %s; [std.length(s), std.map(std.codepoint, std.stringChars(std.substr(s, %d, 8))), "
+                        "std.length(b), b[%d:%d]]") % (jstr(name), jstr(name), lo, lo, lo + 10)
+                root = os.path.join(tmp, "root%d.jsonnet" % n)
+                with open(root, "w") as f:
+                    f.write(prog)
+                rc, out, err = run_cli([root])
+                agg.evaluations += 1
+                want = [len(text), [ord(c) for c in text[lo:lo + 8]], len(data), list(data[lo:lo + 10])]
+                try:
+                    got = json.loads(out.decode("utf-8")) if rc == 0 else None
+                except ValueError:
+                    got = None
+                if got != want:
+                    agg.violation({"kind": "import_delivers_wrong_content", "what": "long_file"},
+                                  {"size_before_sequence": k, "sequence": list(seq), "expected": want, "got": got, "exit": rc,
+                                   "stderr": err.decode("utf-8", "replace")[-200:]}, None)
+                    continue
+                # the same bytes as a Jsonnet string literal in an imported file
+                if not seq.startswith((b"\xf0\x9f\x98", b"\xe2\x82", b"\xc3")) or seq in ("\U0001f642".encode(), "\u00e9".encode(), "\u20ac".encode(), "\U0001f642\U0001f642".encode()):
+                    lib = os.path.join(tmp, "lib%d.libsonnet" % n)
+                    with open(lib, "wb") as f:
+                        f.write(b'"' + b"a" * k + seq + b'tail"')
+                    with open(root, "w") as f:
+                        f.write("local v = import %s; [std.length(v), std.codepoint(v[%d])]" % (jstr("lib%d.libsonnet" % n), k))
+                    rc, out, err = run_cli([root])
+                    agg.evaluations += 1
+                    t2 = (b"a" * k + seq + b"tail").decode("utf-8")
+                    try:
+                        got = json.loads(out.decode("utf-8")) if rc == 0 else None
+                    except ValueError:
+                        got = None
+                    if got != [len(t2), ord(t2[k])]:
+                        agg.violation({"kind": "import_delivers_wrong_content", "what": "long_source_file"},
+                                      {"size_before_sequence": k, "expected": [len(t2), ord(t2[k])], "got": got, "exit": rc}, None)
+                        continue
+                agg.count("long_files_ok")
+                agg.nontrivial.add(common.h64("long", str(k), seq))
+        # (b) several sites importing the same failing path
+        os.mkdir(os.path.join(tmp, "adir.libsonnet"))
+        for kind in ("import", "importstr", "importbin"):
+            for target in ("missing.libsonnet", "adir.libsonnet"):
+                for evaluated in (0, 1, 2, 3):
+                    imp = "%s %s" % (kind, jstr(target))
+                    lines = ["local a = if %s then %s else 0;" % ("true" if evaluated == 0 else "false", imp),
+                             "local b = function() %s;" % imp,
+                             "local c = {f: %s};" % imp,
+                             "[a, %s, %s, %s]" % ("b()" if evaluated == 1 else "0", "c.f" if evaluated == 2 else "0",
+                                                  "(%s)" % imp if evaluated == 3 else "0")]
+                    src = "\n".join(lines) + "\n"
+                    # where the evaluated import expression starts (1-based line / column)
+                    site_line = [1, 2, 3, 4][evaluated]
+                    site_col = lines[site_line - 1].rindex(imp) + 1 if evaluated != 0 else lines[0].index(imp) + 1
+                    root = os.path.join(tmp, "multi.jsonnet")
+                    with open(root, "w") as f:
+                        f.write(src)
+                    rc, out, err = run_cli([root])
+                    agg.evaluations += 1
+                    e2 = err.decode("utf-8", "replace")
+                    desc = {"program": src, "evaluated_site": evaluated, "exit": rc, "stderr": e2[-500:].replace(tmp, "<tmp>")}
+                    if rc != 1 or out != b"":
+                        agg.violation({"kind": "failing_import_contract", "fault": "multi_site", "exit": rc}, desc, None)
+                        continue
+                    m = re.search(r"--> (.*):([0-9]+):([0-9]+)", e2)
+                    if m is None or m.group(1) != root or (int(m.group(2)), int(m.group(3))) != (site_line, site_col):
+                        agg.violation({"kind": "import_error_not_at_import_site", "fault": "multi_site"},
+                                      dict(desc, expected=[site_line, site_col], got=(m.groups()[1:] if m else None)), None)
+                        continue
+                    agg.count("multi_site_failures_located")
+                    agg.nontrivial.add(common.h64("multi", kind, target, str(evaluated)))
+    finally:
+        shutil.rmtree(tmp, ignore_errors=True)
+    return agg
+
+
 def run(tier, seed):
     t0 = time.time()
     quick = tier != "thorough"
@@ -568,6 +665,8 @@ def run(tier, seed):
     for a in common.pmap(precedence_shard, [(seed, masks[i::16]) for i in range(16)]):
         total.merge(a)
     for a in common.pmap(importers_shard, [(seed, masks[i::16]) for i in range(16)]):
+        total.merge(a)
+    for a in common.pmap(long_and_multisite_shard, [(seed * 1423 + i,) for i in range(4 if quick else 32)]):
         total.merge(a)
     ik = [(a, b, c, d) for a in ("file", "exec", "stdin", "ext_code", "tla_code", "ext_code_file", "tla_code_file")
           for b in ("rel", "sub", "abs", "jonly") for c in (0, 1, 2) for d in ("import", "importstr", "importbin")]
@@ -585,6 +684,8 @@ def run(tier, seed):
             "different directories using the same relative string with import/importstr/importbin, in both "
             "evaluation orders, x every placement x every -J sequence up to 2; importer kinds: the importing source as file / -e / stdin / --ext-code / "
             "--tla-code / --ext-code-file / --tla-code-file x relative, sub-directory, absolute and -J-only paths x 0-2 -J x the three "
-            "import kinds, and a code file that is also imported is evaluated once. distinct_nontrivial = distinct trees / placements decided.")
+            "import kinds, and a code file that is also imported is evaluated once; files of 4 KiB .. 128 KiB with a multi-byte or truncated sequence "
+            "straddling the power-of-two boundary through importstr / importbin / import; the same failing path imported at four sites of "
+            "one file of which only the k-th is evaluated: the error points at that site. distinct_nontrivial = distinct trees / placements decided.")
     return common.finish(PROP, tier, seed, total, rule, t0,
                          assumptions=["the Python model of the search (os.path.exists per candidate) is what the property states"])
